@@ -30,7 +30,7 @@ import vcommon as V, circ, designgen as G
 
 CID = "C10"
 WORK = V.BUILD / "work" / CID
-HANDS = ["h_mem_rmw", "h_mem_condwrite", "h_mem_multi", "h_retime_enable", "h_retime_intersect", "h_retime_hint", "h_negreg",
+HANDS = ["h_mem_rmw", "h_mem_condwrite", "h_mem_multi", "h_mem_wrorder", "h_retime_enable", "h_retime_intersect", "h_retime_hint", "h_negreg",
          "h_hier_partition", "h_hier_entity", "h_small_hier", "h_multiclock", "h_fifo", "h_dcfifo", "h_wide_logic"]
 OMODES = ["single", "entity", "partition"]
 TOOLS = ["default", "ghdl", "vivado", "quartus"]
